@@ -39,7 +39,9 @@
 (*                                   wait or to drop                                        *)
 EXTENDS TraceUtil
 
-CONSTANT AllowD8
+CONSTANTS AllowD8,    \* read the hints and excuse what D8 explains
+          HardOrder   \* TRUE: a batch that is not the next arrived events ends the explanation (used first, so that a wrong
+                      \* guess of the arrival order is never reported as P_C18_ExactlyOnceInOrderBatched)
 
 VARIABLES tid, l, now,
           arrived,     \* events that have arrived at the debouncer, in arrival order: [k, at, pre]
@@ -109,7 +111,8 @@ Batch == /\ At("cbatch") /\ Step
                 notEarly == \/ ~H.timed \/ H.iv = 0 \/ n = 0 \/ ~ok
                             \/ /\ \E i \in 1..n : Und[i].at + H.iv <= now
                                /\ \A i \in 1..Len(Und) : Und[i].at + H.iv <= now \/ Und[i].at = now
-            IN /\ ndeliv' = IF ok THEN ndeliv + n ELSE Len(arrived)
+            IN /\ (HardOrder => ok)
+               /\ ndeliv' = IF ok THEN ndeliv + n ELSE Len(arrived)
                /\ viol' = viol \cup If(~ok, "P_C18_ExactlyOnceInOrderBatched") \cup If(stopRet, "P_C18_NoDeliveryAfterStop")
                                \cup If(~notEarly, "P_C18_NotEarly")
                /\ trigAvail' = trigAvail + (IF IsAr /\ n > 0 THEN 1 ELSE 0)
